@@ -287,6 +287,25 @@ func (ps *PairShuffle) Verify(
 		return err
 	}
 
+	// The embedded simple k-shuffle must be the one about the vectors derived
+	// from this transcript: R_i = A_i + lambda*B_i and S_i = C_i + lambda*D_i
+	// (Neff, verifier step 6). Without this binding A, B, C and U are unused
+	// and the proof says nothing about Xbar, Ybar being a permutation.
+	if len(p1.A) != k || len(p1.C) != k || len(p1.U) != k || len(p1.W) != k ||
+		len(p3.D) != k || len(p5.Zsigma) != k ||
+		len(ps.pv6.p0.X) != k || len(ps.pv6.p0.Y) != k {
+		return errors.New("malformed PairShuffleProof")
+	}
+	for i := range k {
+		R := grp.Point().Mul(v4.Zlambda, B[i])
+		R.Add(R, p1.A[i])
+		S := grp.Point().Mul(v4.Zlambda, p3.D[i])
+		S.Add(S, p1.C[i])
+		if !R.Equal(ps.pv6.p0.X[i]) || !S.Equal(ps.pv6.p0.Y[i]) {
+			return errors.New("invalid PairShuffleProof")
+		}
+	}
+
 	// V step 7
 	Phi1 := grp.Point().Null()
 	Phi2 := grp.Point().Null()
